@@ -4,7 +4,7 @@ import HawkModel.CrashLemmas
 
 What is proved here: the *guards* at the crash-prone sites named in the property anchors are sufficient, for all
 operand values, and the facts about the C text they rest on are re-extracted from the working tree on every check
-(`extract/fnc_dispatch.py`, `loops.py`, `div_sites.py`, `flag_sites.py` → `HawkModel/Gen/*.lean`).  Memory safety of
+(`extract/fnc_dispatch.py`, `loops.py`, `div_sites.py`, `flag_sites.py`, `stack_sites.py` → `HawkModel/Gen/*.lean`).  Memory safety of
 the interpreter as a whole is NOT proved: it is exhibited by the sanitizer campaign of `vlib/props/c01.py`
 (sampling).  The evidence file separates the two (`obligations/discharged` vs `evaluations`).
 
@@ -161,5 +161,25 @@ theorem pow_loop_bounded (b e : Nat) (he : e < 2 ^ 64) :
   refine ⟨powLoop_iters 64 1 b e he, ?_⟩
   have := powLoop_val e 1 b
   simpa using this
+
+/-! ## pushes onto the run-time stack stay inside the reserved room -/
+
+set_option maxRecDepth 100000 in
+/-- every HAWK_RTX_STACK_PUSH of run.c (an unchecked store into rtx->stack) follows an availability test whose reservation
+    has one of the accepted shapes (`stackRowOk`), and for the call frame the reservation is sufficient for every
+    combination of named-parameter and actual-argument counts — variadic functions included, since the padding loop does
+    not look at `fun->variadic` either -/
+theorem stack_reserved :
+    (∀ r ∈ StackSites.rows, stackRowOk r = true) ∧ (∀ funN callN : Nat, evalcallPushes funN callN ≤ evalcallReserve funN callN) := by
+  refine ⟨by decide, ?_⟩
+  intro f c
+  unfold evalcallPushes evalcallReserve
+  split <;> omega
+
+/-- a reservation that leaves out the padding for some functions is rejected, and would be insufficient -/
+example : stackRowOk ⟨"hawk_rtx_evalcall", 1, "stack_req", 0, "(4+call->nargs)",
+    [⟨["!fun->variadic", "(fun->nargs>call->nargs)", "fun"], "(fun->nargs-call->nargs)"⟩], 4, [⟨"padto", "fun->nargs", ["fun"]⟩]⟩ = false := by decide
+example : ¬ (4 + 1 + (7 - 1) ≤ 4 + 1 + 0) := by decide
+example : StackSites.rows.length ≥ 5 := by decide
 
 end Hawk.Crash
